@@ -82,6 +82,8 @@ func H_C13_Wiring() {
 		tr := rtw.StaticTrace("github.com/unification-com/mainchain/ante.NewAnteHandler")
 		sig := indexOf(tr, func(s string) bool { return contains(s, "x/auth/ante.NewSigVerificationDecorator") })
 		rt.Assert("C13.signature-verification-in-ante-chain", sig >= 0)
+	} else {
+		rt.Assert("C13.signature-verification-in-ante-chain", !rtw.ProbeBadSignatureAdmitted())
 	}
 	rt.Reach("end")
 }
@@ -90,6 +92,9 @@ func H_C13_Wiring() {
 // H_C06_Ante assumes), before the SDK fee deduction.
 func H_C06_Wiring() {
 	if !rtw.Static() {
+		// native replay: the observable consequence of the order — a payer holding only locked
+		// eFUND is admitted, because the unlock decorator runs before the SDK deducts the fee
+		rt.Assert("C06.ante-order", rtw.ProbeLockedOnlyPayerAdmitted())
 		return
 	}
 	tr := rtw.StaticTrace("github.com/unification-com/mainchain/ante.NewAnteHandler")
@@ -106,6 +111,8 @@ func H_C06_Wiring() {
 // enterprise supply routes are registered before the bank module's (C17).
 func H_C02_WiringModules() {
 	if !rtw.Static() {
+		rt.Assert("C02.no-mint-module", !rtw.HasModule("mint"))
+		rt.Assert("C02.enterprise-keeper-constructed", rtw.HasModule("enterprise"))
 		return
 	}
 	tr := rtw.StaticTrace("github.com/unification-com/mainchain/app.NewApp")
@@ -142,18 +149,31 @@ func hasStr(xs []string, want string) bool {
 // both in ante.NewAnteHandler and in the options app.NewApp passes to it.
 func H_C06_WiringKeepers() {
 	if !rtw.Static() {
+		// native replay: ask the running application which module's fee each message kind is charged
+		rt.Assert("C06.wrkchain-decorator-gets-wrkchain-keeper", rtw.ProbeAnteFeeSource("wrkchain") == "wrkchain")
+		rt.Assert("C06.beacon-decorator-gets-beacon-keeper", rtw.ProbeAnteFeeSource("beacon") == "beacon")
 		return
 	}
 	const nah = "github.com/unification-com/mainchain/ante.NewAnteHandler"
 	w := rtw.StaticCallArgFields(nah, "x/wrkchain/ante.NewCorrectWrkChainFeeDecorator")
 	b := rtw.StaticCallArgFields(nah, "x/beacon/ante.NewCorrectBeaconFeeDecorator")
 	e := rtw.StaticCallArgFields(nah, "x/enterprise/ante.NewCheckLockedUndDecorator")
-	rt.Assert("C06.wrkchain-decorator-gets-wrkchain-keeper", len(w) == 4 && w[0] == "BK" && w[1] == "AccountKeeper" && w[2] == "WrkchainKeeper" && w[3] == "EnterpriseKeeper")
-	rt.Assert("C06.beacon-decorator-gets-beacon-keeper", len(b) == 4 && b[0] == "BK" && b[1] == "AccountKeeper" && b[2] == "BeaconKeeper" && b[3] == "EnterpriseKeeper")
-	rt.Assert("C05+C06.unlock-decorator-gets-enterprise-keeper", len(e) == 1 && e[0] == "EnterpriseKeeper")
 	init := rtw.StaticStructInit("github.com/unification-com/mainchain/app.NewApp", "ante.HandlerOptions")
-	rt.Assert("C06.app-passes-own-keepers-to-ante", hasStr(init, "WrkchainKeeper=WrkchainKeeper") && hasStr(init, "BeaconKeeper=BeaconKeeper") &&
-		hasStr(init, "EnterpriseKeeper=EnterpriseKeeper") && hasStr(init, "BK=BankKeeper"))
+	// decorator argument -> HandlerOptions field -> application keeper field
+	via := func(args []string, i int) string {
+		if i >= len(args) {
+			return ""
+		}
+		for _, kv := range init {
+			if len(kv) > len(args[i]) && kv[:len(args[i])+1] == args[i]+"=" {
+				return kv[len(args[i])+1:]
+			}
+		}
+		return ""
+	}
+	rt.Assert("C06.wrkchain-decorator-gets-wrkchain-keeper", len(w) == 4 && via(w, 0) == "BankKeeper" && via(w, 2) == "WrkchainKeeper" && via(w, 3) == "EnterpriseKeeper")
+	rt.Assert("C06.beacon-decorator-gets-beacon-keeper", len(b) == 4 && via(b, 0) == "BankKeeper" && via(b, 2) == "BeaconKeeper" && via(b, 3) == "EnterpriseKeeper")
+	rt.Assert("C05+C06.unlock-decorator-gets-enterprise-keeper", len(e) == 1 && via(e, 0) == "EnterpriseKeeper")
 	rt.Reach("end")
 }
 
@@ -181,9 +201,11 @@ func H_C15_WiringGenesisOrder() {
 }
 
 // H_C10_WiringFeeCollector: the stream keeper pays the validator-fee share of every release to
-// the fee collector account (the account x/distribution sweeps), as H_C10_* assume.
+// the fee collector account (the account x/distribution sweeps), as H_C10_* assume. Also a C15
+// obligation: fees paid straight into another module account (e.g. distribution's) make that
+// module's own genesis balance check fail when the exported state is imported.
 func H_C10_WiringFeeCollector() {
-	rt.Assert("C10.stream-fees-go-to-the-fee-collector", rtw.StreamFeeCollector() == authtypes.FeeCollectorName)
+	rt.Assert("C10+C15.stream-fees-go-to-the-fee-collector", rtw.StreamFeeCollector() == authtypes.FeeCollectorName)
 	rt.Reach("end")
 }
 
